@@ -40,8 +40,8 @@ theorem dropEmit_nots {w : World} {n : Nat} {N : Noti} (hN : w.nots n = some N) 
     ∃ N1, (dropEmit w n N).nots n = some N1 ∧ N1.slot = N.slot ∧ N1.st = .alive ∧ N1.node = N.node := by
   unfold dropEmit
   split
-  · refine ⟨updateConns w N, by rw [(notifyCore_frame _ _ _ _).2.2.2.2.2]; simp, (updateConns_fields w N).2.1, ?_, (updateConns_fields w N).2.2.1⟩
-    rw [(updateConns_fields w N).1]; exact hst
+  · obtain ⟨N', e, a, b, c, _⟩ := (notifyCore_frame w n N _).2.2.2.2.2
+    exact ⟨N', by rw [e]; simp, b, by rw [a]; exact hst, c⟩
   · exact ⟨N, hN, rfl, hst, rfl⟩
 
 theorem Inv.pres_dnotFull {w : World} (h : Inv w) {n : Nat} {N : Noti} (hN : w.nots n = some N) (hst : N.st = .alive) :
@@ -143,6 +143,15 @@ theorem step_cfg (w : World) (op : Op) : (step w op).1.cfg = w.cfg := by
       · exact (notifyCore_frame _ _ _ _).1
   | wait l => simp only [step]; repeat' split
               all_goals rfl
+  | keys n => simp only [step]; repeat' split
+              all_goals rfl
+  | notifyOne n slot l id =>
+    simp only [step]
+    split
+    · rfl
+    · split
+      · rfl
+      · exact (notifyOneCore_frame _ _ _ _ _ _).1
   | count k => simp only [step]; repeat' split
                all_goals rfl
   | dnode k => simp only [step]; repeat' split
@@ -261,6 +270,28 @@ theorem Inv.step {w : World} (h : Inv w) (op : Op) : Inv (step w op).1 := by
       split
       · exact h
       · exact h.pres_wait hL
+  | keys n =>
+    simp only [EventPorts.step]
+    split
+    · exact h
+    · rename_i N hN
+      split
+      · exact h
+      · rename_i hst
+        have hst : N.st = .alive := by
+          cases hx : N.st <;> simp [hx] at hst ⊢
+        exact h.pres_setN_update hN hst
+  | notifyOne n slot l id =>
+    simp only [EventPorts.step]
+    split
+    · exact h
+    · rename_i N hN
+      split
+      · exact h
+      · rename_i hst
+        have hst : N.st = .alive := by
+          cases hx : N.st <;> simp [hx] at hst ⊢
+        exact h.pres_notifyOneCore hN hst _ _ _
   | count k => simp only [EventPorts.step]; repeat' split
                all_goals exact h
   | dnode k =>
